@@ -362,6 +362,7 @@ func report(p *Program, spec *PropSpec, results []*ItemResult, prop, tier string
 	funcs := map[string]int{}
 	var samples []interface{}
 	unknownBranches := 0
+	crossN, crossU := 0, 0
 	for _, r := range results {
 		if r == nil {
 			continue
@@ -374,6 +375,8 @@ func report(p *Program, spec *PropSpec, results []*ItemResult, prop, tier string
 		infeasible += r.Infeasible
 		instrs += r.Instrs
 		unknownBranches += r.UnknownBranch
+		crossN += r.CrossChecked
+		crossU += r.CrossUnknown
 		q.Queries += r.Solver.Queries
 		q.SatN += r.Solver.SatN
 		q.UnsatN += r.Solver.UnsatN
@@ -582,7 +585,7 @@ func report(p *Program, spec *PropSpec, results []*ItemResult, prop, tier string
 				"harnesses":                     hb,
 				"bounds":                        spec.Bounds,
 				"outside_bounds":                spec.Outside,
-				"queries":                       map[string]interface{}{"z3": map[string]int{"total": q.Queries, "sat": q.SatN, "unsat": q.UnsatN, "unknown": q.UnknownN}, "cvc5_as_int": map[string]int{"total": altQ.Queries}, "unknown_branch_kept": unknownBranches},
+				"queries":                       map[string]interface{}{"z3": map[string]int{"total": q.Queries, "sat": q.SatN, "unsat": q.UnsatN, "unknown": q.UnknownN}, "cvc5_as_int": map[string]int{"total": altQ.Queries}, "unknown_branch_kept": unknownBranches, "cross_checked_by_second_solver": crossN, "primary_solver_binary": z3Binary()},
 				"solver_time_s":                 q.Time.Seconds() + altQ.Time.Seconds(),
 				"stubs_used":                    spec.Stubs,
 				"known_findings_matched":        keysOf(seenKnown),
@@ -598,7 +601,11 @@ func report(p *Program, spec *PropSpec, results []*ItemResult, prop, tier string
 		writeJSON(filepath.Join(verifDir, "evidence", prop+".json"), ev)
 	}
 	if code == 0 {
-		fmt.Printf("OK property=%s tier=%s paths=%d assertions=%d (unsat %d, trivial %d) queries=%d solver=%.1fs wall=%.1fs known=%d\n", prop, tier, paths, asserts, proved, trivial, q.Queries, q.Time.Seconds(), wall, len(seenKnown))
+		cross := ""
+		if crossN > 0 {
+			cross = fmt.Sprintf(" cross-checked=%d by %s (second solver unknown on %d)", crossN, crossSolver, crossU)
+		}
+		fmt.Printf("OK property=%s tier=%s paths=%d assertions=%d (unsat %d, trivial %d) queries=%d solver=%.1fs wall=%.1fs known=%d%s\n", prop, tier, paths, asserts, proved, trivial, q.Queries, q.Time.Seconds(), wall, len(seenKnown), cross)
 	}
 	return code
 }
